@@ -53,6 +53,27 @@ class World:
     def tag(self, t):
         self.tags.add(t)
 
+    def size(self, options=(1, 2, 3, 0)):
+        """length of a container argument (list of RDMs / datasets / models / selected values):
+           rotates with the seed through one element, two, many and — where the callable accepts
+           or cleanly rejects it — none"""
+        n = self.pick(options)
+        self.tag('container:' + ('many' if n >= 3 else str(n)))
+        return n
+
+    def stack(self, options=(3, 1, 2)):
+        """number of RDMs in a stack argument (one / two / many): single-RDM shortcuts are a
+           classic place to hand back the argument itself"""
+        n = self.pick(options)
+        self.tag('stack:' + ('many' if n >= 3 else str(n)))
+        return n
+
+    def form(self, items, forms=('list', 'tuple')):
+        """the same elements as list / tuple (the library accepts any iterable)"""
+        f = self.pick(forms)
+        self.tag('form:' + f)
+        return tuple(items) if f == 'tuple' else list(items)
+
     def with_nans(self, d, nan=None):
         """put NaNs into a stack of RDM vectors according to the seed's mode"""
         mode = nan or self.nan_mode
@@ -162,8 +183,10 @@ class World:
             m, descriptors={'subj': 3, 'task': 'view'},
             obs_descriptors={'conds': self._d([f'c{c}' for c, _ in obs]),
                              'runs': self._d([f'run{r}' for _, r in obs]),
-                             'trial': self._d(list(range(n_obs)))},
+                             'trial': self._d(list(range(n_obs))),
+                             'sess': self._d(['s1'] * n_obs)},
             channel_descriptors={'rois': self._d(['V1', 'V1', 'V2', 'V2', 'IT'][:n_ch]),
+                                 'hemi': self._d(['L'] * n_ch),
                                  'vox': self._d([f'v{i}' for i in range(n_ch)])})
 
     def count_dataset(self):
@@ -181,8 +204,10 @@ class World:
             m, descriptors={'subj': 3},
             obs_descriptors={'conds': self._d([f'c{c}' for c, _ in obs]),
                              'runs': self._d([f'run{r}' for _, r in obs]),
-                             'trial': self._d(list(range(n_obs)))},
+                             'trial': self._d(list(range(n_obs))),
+                             'sess': self._d(['s1'] * n_obs)},
             channel_descriptors={'rois': self._d(['V1', 'V2', 'V2'][:n_ch]),
+                                 'hemi': self._d(['L'] * n_ch),
                                  'vox': self._d([f'v{i}' for i in range(n_ch)])},
             time_descriptors={'time': np.array([0.0, 0.5, 1.0, 1.5][:n_time])})  # bin_time needs an array
 
@@ -238,25 +263,41 @@ def _recipes():
 
     @reg('rdm.rdms.RDMs.__getitem__')
     def _(w):
-        return w.rdms(), [w.pick([0, 1, [0, 2]])], {}
+        return w.rdms(), [w.pick([0, 1, [0, 2], [1], np.array([2, 0, 1]), [2, 2]])], {}
 
-    for meth, mk in (('subset', lambda w: w.pick([['name', 'r1'], ['grp', 0], ['name', np.array(['r0', 'r2'])]])),
-                     ('subsample', lambda w: ['name', ['r1', 'r1', 'r2']]),
-                     ('subset_pattern', lambda w: ['cond', ['c0', 'c2', 'c3']] if w.rng.random() < .6 else ['cat', 1]),
-                     ('subsample_pattern', lambda w: ['cond', ['c1', 'c1', 'c3', 'c0']])):
+    def names(w, pool, rep=False):
+        k = w.size()
+        sel = [pool[(w.seed + i) % len(pool)] for i in range(k)]
+        if rep and k >= 2:
+            sel[1] = sel[0]
+        return sel
+    L = lambda v: (lambda: v)  # noqa: E731
+    for meth, mk in (('subset', lambda w: w.pick([L(['name', 'r1']), L(['grp', 0]), L(['name', np.array(['r0', 'r2'])]),
+                                                  lambda: ['name', names(w, ['r0', 'r1', 'r2'])],
+                                                  L(['name', ['r0', 'r1', 'r2']]), L(['index', [0, 1, 2]])])()),
+                     ('subsample', lambda w: w.pick([L(['name', ['r1', 'r1', 'r2']]), L(['name', 'r2']),
+                                                     lambda: ['name', names(w, ['r0', 'r1', 'r2'], rep=True)]])()),
+                     ('subset_pattern', lambda w: w.pick([L(['cond', ['c0', 'c2', 'c3']]), L(['cat', 1]),
+                                                          lambda: ['cond', names(w, ['c0', 'c1', 'c2', 'c3'])],
+                                                          L(['cond', 'c2']),
+                                                          lambda: ['cond', [f'c{i}' for i in range(w.n_cond)]],
+                                                          lambda: ['index', np.arange(w.n_cond)]])()),
+                     ('subsample_pattern', lambda w: w.pick([L(['cond', ['c1', 'c1', 'c3', 'c0']]), L(['cond', 'c3']),
+                                                             lambda: ['cond', names(w, ['c0', 'c1', 'c2', 'c3'], rep=True)]])())):
         R['rdm.rdms.RDMs.' + meth] = (lambda mk: lambda w: (w.rdms(), mk(w), {}))(mk)
 
     for meth in ('copy', 'get_matrices', 'get_vectors', 'to_df', 'to_dict'):
-        R['rdm.rdms.RDMs.' + meth] = lambda w: (w.rdms(), [], {})
+        R['rdm.rdms.RDMs.' + meth] = lambda w: (w.rdms(n_rdm=w.stack()), [], {})
     for fn_ in ('minmax_transform', 'positive_transform', 'sqrt_transform'):
-        R['rdm.transform.' + fn_] = lambda w: (None, [w.rdms()], {})
-    R['rdm.transform.rank_transform'] = lambda w: (None, [w.rdms()], {'method': w.pick(['average', 'min', 'dense'])})
+        R['rdm.transform.' + fn_] = lambda w: (None, [w.rdms(n_rdm=w.stack())], {})
+    R['rdm.transform.rank_transform'] = lambda w: (None, [w.rdms(n_rdm=w.stack())],
+                                                   {'method': w.pick(['average', 'min', 'dense'])})
     R['inference.result.Result.summary'] = lambda w: (w.result(), [], {})
 
     @reg('rdm.rdms.RDMs.mean')
     def _(w):
         # weights only matter when dissimilarities are missing: every weights variant meets NaNs
-        r = w.rdms(nan='per-rdm' if w.nan_mode == 'none' else w.nan_mode)
+        r = w.rdms(n_rdm=w.stack((3, 3, 1, 2)), nan='per-rdm' if w.nan_mode == 'none' else w.nan_mode)
         return r, [], {'weights': w.weights_for(r)}
 
     @reg('rdm.rdms.RDMs.save')
@@ -267,19 +308,25 @@ def _recipes():
     @reg('rdm.rdms.concat')
     def _(w):
         c = w.conds()
-        a = w.rdms(n_rdm=2, conds=c)
-        c2 = list(c)
-        w.rng.shuffle(c2)
-        if c2 == c:
-            c2.reverse()
-        b = w.rdms(n_rdm=2, conds=c2)
-        if w.rng.random() < .5:
-            return None, [a, b], {}
-        return None, [[a, b]], {}
+        n = w.size()
+        items = []
+        for i in range(n):
+            ci = list(c)
+            if i:
+                w.rng.shuffle(ci)
+                if ci == c:
+                    ci.reverse()
+            items.append(w.rdms(n_rdm=1 + (i + w.seed) % 2, conds=ci))
+        how = w.pick(['list', 'varargs', 'tuple'])
+        w.tag('form:' + how)
+        kw = {'target_pdesc': 'cond'} if n and w.seed % 5 == 0 else {}
+        if how == 'varargs':
+            return None, items, kw
+        return None, [tuple(items) if how == 'tuple' else items], kw
 
     @reg('rdm.rdms.permute_rdms')
     def _(w):
-        r = w.rdms()
+        r = w.rdms(n_rdm=w.stack())
         p = list(range(r.n_cond))
         w.rng.shuffle(p)
         return None, [r], {'p': np.array(p)}
@@ -323,13 +370,14 @@ def _recipes():
     # --- rdm.combine
     @reg('rdm.combine.from_partials')
     def _(w):
-        a = w.rdms(n_rdm=1, n_cond=3, conds=['c0', 'c2', 'c1'])
-        b = w.rdms(n_rdm=2, n_cond=3, conds=['c3', 'c1', 'c0'])
-        return None, [[a, b]], {'descriptor': 'cond'}
+        parts = [w.rdms(n_rdm=1, n_cond=3, conds=['c0', 'c2', 'c1']),
+                 w.rdms(n_rdm=2, n_cond=3, conds=['c3', 'c1', 'c0']),
+                 w.rdms(n_rdm=1, n_cond=4, conds=['c1', 'c0', 'c3', 'c2'])]
+        return None, [w.form(parts[:w.size()])], {'descriptor': 'cond'}
 
     @reg('rdm.combine.rescale')
     def _(w):
-        return None, [w.rdms(positive=True)], {'method': w.pick(['evidence', 'setsize', 'simple'])}
+        return None, [w.rdms(n_rdm=w.stack(), positive=True)], {'method': w.pick(['evidence', 'setsize', 'simple'])}
 
     # --- rdm.compare
     def cmp(w, sig=False, **kw):
@@ -353,16 +401,44 @@ def _recipes():
         return None, [w.rdms()], {'min': 0, 'max': 60, 'cond': 'c1'}
 
     # --- rdm.calc
-    def calc(method=None, **extra):
+    def rm_kw(w, kw):
+        kw['remove_mean'] = w.pick([False, True])
+        w.tag('remove_mean:' + str(kw['remove_mean']).lower())
+        return kw
+
+    def calc(method=None, rm=False, **extra):
         def f(w):
             ds = w.count_dataset() if method and 'poisson' in method else w.dataset()
             kw = dict(extra)
             if method:
                 kw['method'] = method
+            if method in ('euclidean', 'mahalanobis', 'crossnobis') or (method is None and rm):
+                kw['remove_mean'] = w.pick([False, True])
+                w.tag('remove_mean:' + str(kw['remove_mean']).lower())
+                if method != 'crossnobis' and w.pick([0, 1, 1]) == 0:
+                    # no descriptor: every observation is a pattern, the measurements are used
+                    # as they are (no averaging step in between)
+                    kw['descriptor'] = None
+                    kw.pop('cv_descriptor', None)
+                    w.tag('descriptor:none')
             return None, [ds], kw
         return f
     def calc_any(w):
-        m = w.pick(['mahalanobis', 'crossnobis', 'euclidean', 'correlation', 'poisson', 'poisson_cv'])
+        m = w.pick(['mahalanobis', 'crossnobis', 'euclidean', 'correlation', 'poisson', 'poisson_cv',
+                    'list', 'list-nodesc', 'list-noise'])
+        if m.startswith('list'):
+            # the iterable branch: one RDM per dataset, merged by from_partials / concat
+            n = w.size((1, 2, 3))
+            dss = w.form([w.dataset() for _ in range(n)])
+            if m == 'list-nodesc':
+                for d in dss:
+                    d.sort_by('trial')
+                return None, [dss], rm_kw(w, {'method': 'euclidean', 'descriptor': None})
+            if m == 'list-noise':
+                w.tag('noise:array')
+                return None, [dss], {'method': 'mahalanobis', 'descriptor': 'conds',
+                                     'noise': [w.prec() for _ in range(n)]}
+            return None, [dss], {'method': 'euclidean', 'descriptor': 'conds'}
         extra = {'descriptor': 'conds', 'cv_descriptor': 'runs'}
         if m in ('mahalanobis', 'crossnobis'):
             extra['noise'] = w.prec()
@@ -370,10 +446,12 @@ def _recipes():
         return calc(m, **extra)(w)
     R['rdm.calc.calc_rdm'] = calc_any
     R['rdm.calc.calc_rdm_correlation'] = calc(descriptor='conds')
-    R['rdm.calc.calc_rdm_euclidean'] = calc(descriptor='conds')
-    R['rdm.calc.calc_rdm_mahalanobis'] = lambda w: (w.tag('noise:array'), (None, [w.dataset()], {'descriptor': 'conds', 'noise': w.prec()}))[1]
+    R['rdm.calc.calc_rdm_euclidean'] = calc(rm=True, descriptor='conds')
+
+    R['rdm.calc.calc_rdm_mahalanobis'] = lambda w: (w.tag('noise:array'), (None, [w.dataset()], rm_kw(
+        w, {'descriptor': w.pick(['conds', None, 'conds']), 'noise': w.prec()})))[1]
     R['rdm.calc.calc_rdm_crossnobis'] = lambda w: (None, [w.dataset(), 'conds'],
-                                                  {'noise': w.prec(), 'cv_descriptor': 'runs'})
+                                                  rm_kw(w, {'noise': w.prec(), 'cv_descriptor': 'runs'}))
     R['rdm.calc.calc_rdm_poisson'] = lambda w: (None, [w.count_dataset()], {'descriptor': 'conds'})
     R['rdm.calc.calc_rdm_poisson_cv'] = lambda w: (None, [w.count_dataset()],
                                                   {'descriptor': 'conds', 'cv_descriptor': 'runs'})
@@ -421,12 +499,15 @@ def _recipes():
         def bind(cls, mk):
             R[cls + '.copy'] = lambda w: (mk(w), [], {})
             R[cls + '.to_dict'] = lambda w: (mk(w), [], {})
-            R[cls + '.split_obs'] = lambda w: (mk(w), ['conds'], {})
-            R[cls + '.split_channel'] = lambda w: (mk(w), ['rois'], {})
+            # 'sess' / 'hemi' hold a single value: the split has one part, the whole object
+            R[cls + '.split_obs'] = lambda w: (mk(w), [w.pick(['conds', 'sess', 'runs'])], {})
+            R[cls + '.split_channel'] = lambda w: (mk(w), [w.pick(['rois', 'hemi', 'vox'])], {})
             R[cls + '.subset_obs'] = lambda w: (mk(w), w.pick(
-                [['conds', 'c1'], ['conds', ['c0', 'c2']], ['trial', 3], ['trial', [1, 4]]]), {})
+                [L(['conds', 'c1']), L(['conds', ['c0', 'c2']]), L(['trial', 3]), L(['trial', [1, 4]]),
+                 lambda: ['trial', list(range(w.size()))], L(['trial', [2]])])(), {})
             R[cls + '.subset_channel'] = lambda w: (mk(w), w.pick(
-                [['rois', 'V2'], ['rois', ['V1', 'V2']], ['vox', 'v1']]), {})
+                [L(['rois', 'V2']), L(['rois', ['V1', 'V2']]), L(['vox', 'v1']), L(['vox', ['v2']]),
+                 lambda: ['vox', [f'v{i}' for i in range(w.size())]]])(), {})
 
             def save(w):
                 ft = w.pick(['hdf5', 'pkl'])
@@ -451,7 +532,7 @@ def _recipes():
     R['data.dataset.TemporalDataset.time_as_channels'] = lambda w: (w.tdataset(), [], {})
     R['data.dataset.TemporalDataset.time_as_observations'] = lambda w: (w.tdataset(), ['time'], {})
     R['data.dataset.dataset_from_dict'] = lambda w: (
-        None, [(w.tdataset() if w.rng.random() < .3 else w.dataset()).copy().to_dict()], {})
+        None, [(w.tdataset() if w.pick([0, 0, 1]) else w.dataset()).copy().to_dict()], {})
 
     @reg('data.dataset.load_dataset')
     def _(w):
@@ -459,8 +540,9 @@ def _recipes():
         w.dataset().save(f, file_type='pkl', overwrite=True)
         return None, [f], {}
 
-    R['data.dataset.merge_subsets'] = lambda w: (None, [w.dataset().split_obs('runs')], {})
-    R['data.ops.merge_datasets'] = lambda w: (None, [[w.dataset(), w.dataset()]], {})
+    R['data.dataset.merge_subsets'] = lambda w: (
+        None, [w.form(w.dataset().split_obs(w.pick(['runs', 'conds']))[:w.size((2, 1, 3))])], {})
+    R['data.ops.merge_datasets'] = lambda w: (None, [w.form([w.dataset() for _ in range(w.size())])], {})
     R['data.computations.average_dataset'] = lambda w: (None, [w.dataset()], {})
     R['data.computations.average_dataset_by'] = lambda w: (None, [w.dataset(), 'conds'], {})
 
@@ -468,7 +550,7 @@ def _recipes():
         return w._vals(40, -20, 60).reshape(8, 5)
     for nm in ('cov_from_residuals', 'prec_from_residuals'):
         R['data.noise.' + nm] = lambda w: (
-            None, [w.pick([lambda: resid(w), lambda: [resid(w), resid(w)],
+            None, [w.pick([lambda: resid(w), lambda: [resid(w) for _ in range(w.size((2, 1, 3)))],
                            lambda: w._vals(4 * 5 * 6, -20, 300).reshape(4, 5, 6)])()],
             {'method': w.pick(['shrinkage_diag', 'shrinkage_eye', 'diag', 'full'])})
     for nm in ('cov_from_measurements', 'prec_from_measurements', 'cov_from_unbalanced', 'prec_from_unbalanced'):
@@ -481,8 +563,7 @@ def _recipes():
         def bindm(k, cls):
             def ctor(w):
                 r = w.rdms(n_rdm=1 if k == 'fixed' else 2, positive=True)
-                c = w.rng.random()
-                if c < .6:
+                if w.pick([0, 1, 0]) == 0:
                     return None, ['m', r], {}
                 if k == 'fixed':
                     return None, ['m', r.dissimilarities[0].copy()], {}
@@ -507,7 +588,8 @@ def _recipes():
     R['model.model.Model.to_dict'] = lambda w: (w.model(w.pick(['fixed', 'weighted'])), [], {})
     R['model.model.model_from_dict'] = lambda w: (None, [w.model(w.pick(['fixed', 'weighted', 'select',
                                                                                'interpolate'])).to_dict()], {})
-    R['model.model_family.ModelFamily'] = lambda w: (None, [[w.model('fixed'), w.model('fixed')]], {})
+    R['model.model_family.ModelFamily'] = lambda w: (
+        None, [w.form([w.model('fixed') for _ in range(w.size((2, 1, 3)))])], {})
 
     def family(w):
         from rsatoolbox.model.model_family import ModelFamily
@@ -539,16 +621,30 @@ def _recipes():
         R['model.fitter.' + nm] = fitrec(k)
 
     # --- inference
+    def models_arg(w, with_theta=False):
+        """the `models` argument: two models in a list (with theta when asked), one model in a
+           list, one bare model, a tuple of models"""
+        how = 'two' if with_theta else w.pick(['two', 'one-in-list', 'bare', 'tuple'])
+        ms = w.models()
+        if how == 'two':
+            w.tag('container:2')
+            return ms
+        if how == 'tuple':
+            w.tag('container:2'); w.tag('form:tuple')
+            return tuple(ms)
+        w.tag('container:1' if how == 'one-in-list' else 'container:bare')
+        return [ms[1]] if how == 'one-in-list' else ms[1]
     def ev(**kw):
-        return lambda w: (None, [w.models(), w.data_rdms()], dict(kw))
+        return lambda w: (None, [models_arg(w), w.data_rdms()], dict(kw))
     def ev_theta(**kw):
         def f(w):
             k = dict(kw)
-            if (w.seed // 2) % 2 == 0:
+            th = (w.seed // 2) % 2 == 0
+            if th:
                 # one parameter vector per model (fixed: none, weighted: 2 weights), float arrays
                 k['theta'] = [None, np.array([0.75, 1.25])]
                 w.tag('theta:array')
-            return None, [w.models(), w.data_rdms()], k
+            return None, [models_arg(w, th), w.data_rdms()], k
         return f
     R['inference.evaluate.eval_fixed'] = ev_theta(method='cosine')
     R['inference.evaluate.eval_bootstrap'] = ev_theta(N=3)
@@ -566,7 +662,7 @@ def _recipes():
         from rsatoolbox.inference import sets_k_fold
         data = w.data_rdms()
         tr, te, ce = sets_k_fold(data, k_pattern=2, k_rdm=2, random=False)
-        return None, [w.models(), data, tr, te], {'ceil_set': ce, 'method': 'cosine'}
+        return None, [models_arg(w), data, tr, te], {'ceil_set': ce, 'method': 'cosine'}
 
     @reg('inference.noise_ceiling.cv_noise_ceiling')
     def _(w):
@@ -577,7 +673,7 @@ def _recipes():
 
     R['inference.noise_ceiling.boot_noise_ceiling'] = lambda w: (None, [w.data_rdms()], {'method': 'cosine'})
     for nm in ('bootstrap_sample', 'bootstrap_sample_pattern', 'bootstrap_sample_rdm'):
-        R['inference.bootstrap.' + nm] = lambda w: (None, [w.rdms()], {})
+        R['inference.bootstrap.' + nm] = lambda w: (None, [w.rdms(n_rdm=w.stack())], {})
     R['inference.crossvalsets.sets_k_fold'] = lambda w: (None, [w.rdms(n_rdm=4)], {'k_rdm': 2, 'k_pattern': 2})
     R['inference.crossvalsets.sets_k_fold_pattern'] = lambda w: (None, [w.rdms()], {'k': 2})
     R['inference.crossvalsets.sets_k_fold_rdm'] = lambda w: (None, [w.rdms(n_rdm=4)], {'k_rdm': 2})
@@ -635,20 +731,20 @@ def _recipes():
     R['util.inference_util.extract_variances'] = lambda w: (None, [np.eye(4) * 0.01], {'nc_included': True})
     R['util.inference_util.get_errorbars'] = lambda w: (
         None, [np.array([0.01, 0.02]), w.evaluations(), 5], {})
-    R['util.inference_util.input_check_model'] = lambda w: (None, [w.models()], {})
+    R['util.inference_util.input_check_model'] = lambda w: (None, [models_arg(w)], {})
     R['util.inference_util.nc_tests'] = lambda w: (
         None, [w.evaluations(), np.array([0.5, 0.9])],
         {'noise_ceil_var': np.array([[0.01, 0.02], [0.01, 0.02]]), 'dof': 5})
     R['util.inference_util.pair_tests'] = lambda w: (
         None, [w.evaluations()], {'diff_var': np.array([0.02]), 'dof': 5})
-    R['util.inference_util.pool_rdm'] = lambda w: (None, [w.data_rdms()], {'method': w.pick(
+    R['util.inference_util.pool_rdm'] = lambda w: (None, [w.data_rdms(n_rdm=w.stack((4, 1, 2)))], {'method': w.pick(
         ['cosine', 'corr', 'spearman', 'rho-a', 'cosine_cov', 'neg_riem_dist'])})
     def pool(w):
         m = w.pick(['cosine_cov', 'euclid', 'corr_cov', 'cosine', 'corr', 'spearman', 'rho-a', 'kendall'])
         kw = {'method': m}
         if 'cov' in m:
             kw['sigma_k'] = w.sigma_k(w.n_cond, vector_ok=False)
-        return None, [w.data_rdms()], kw
+        return None, [w.data_rdms(n_rdm=w.stack((4, 1, 2)))], kw
     R['util.pooling.pool_rdm'] = pool
     ev3 = lambda w: np.abs(w._vals(4 * 2 * 5, 1, 60).reshape(4, 2, 5)) / 64.0  # noqa: E731
     R['util.inference_util.ranksum_pair_test'] = lambda w: (None, [ev3(w)], {})
@@ -671,13 +767,13 @@ def _recipes():
     R['util.matrix.square_category_binary_mask'] = lambda w: (None, [[0, 2]], {'size': 5})
     R['util.rdm_utils.add_pattern_index'] = lambda w: (None, [w.rdms(), 'cond'], {})
     R['util.rdm_utils.batch_to_matrices'] = lambda w: (
-        None, [w.rdms().dissimilarities.copy() if w.rng.random() < .5 else w.rdms().get_matrices()], {})
+        None, [w.rdms().dissimilarities.copy() if w.pick([0, 1]) else w.rdms().get_matrices()], {})
     R['util.rdm_utils.batch_to_vectors'] = lambda w: (
         None, [w.pick([lambda: w.rdms().dissimilarities.copy(), lambda: w.rdms().get_matrices(),
                              lambda: w.rdms().dissimilarities[0].copy()])()], {})
     R['util.rdm_utils.category_condition_idxs'] = lambda w: (None, [w.rdms(), 'cat'], {})
     R['util.vis_utils.weight_to_matrices'] = lambda w: (
-        None, [np.abs(w.rdms().dissimilarities) if w.rng.random() < .5 else np.abs(w.rdms().get_matrices())], {})
+        None, [np.abs(w.rdms().dissimilarities) if w.pick([0, 1]) else np.abs(w.rdms().get_matrices())], {})
 
     @reg('util.searchlight.get_volume_searchlight')
     def _(w):
@@ -696,16 +792,52 @@ def _recipes():
         from rsatoolbox.inference import eval_fixed
         return None, [w.data_rdms(), w.model('fixed'), eval_fixed], {'method': 'corr', 'n_jobs': 1}
 
+    def dist_matrix(w, n=5):
+        pts = w._vals(n * 3, 1, 60).reshape(n, 3) / 4.0
+        return np.sqrt(((pts[:, None, :] - pts[None, :, :]) ** 2).sum(-1))
+
+    def mds_kw(w, n=5):
+        kw = {}
+        k = w.pick(['none', 'weight', 'weight+init'])
+        if k != 'none':
+            wt = (np.ones((n, n)) - np.eye(n)) * 2.0      # maximum is not 1: a normalisation shows
+            wt[0, 1] = wt[1, 0] = 0.5
+            kw['weight'] = wt
+        if k == 'weight+init':
+            kw['init'] = w._vals(n * 2, 1, 60).reshape(n, 2) / 8.0
+        return kw
+    R['util.vis_utils.smacof'] = lambda w: (
+        None, [dist_matrix(w)], dict(mds_kw(w), n_init=1, max_iter=5, random_state=w.seed % 7,
+                                     metric=w.pick([True, False, True])))
+    R['util.vis_utils.Weighted_MDS'] = lambda w: (
+        None, [], {'n_components': 2, 'dissimilarity': 'precomputed', 'n_init': 1, 'random_state': 0})
+
+    def wmds(w):
+        from rsatoolbox.util.vis_utils import Weighted_MDS
+        return Weighted_MDS(n_components=2, dissimilarity='precomputed', n_init=1, max_iter=5, random_state=0)
+    R['util.vis_utils.Weighted_MDS.fit'] = lambda w: (wmds(w), [dist_matrix(w)], mds_kw(w))
+    R['util.vis_utils.Weighted_MDS.fit_transform'] = lambda w: (wmds(w), [dist_matrix(w)], mds_kw(w))
+    R['util.matrix.run'] = lambda w: (None, [], {})
+    # helpers whose documented contract is to update their *first* argument: everything else
+    # (the second dictionary, arrays held in either) is still checked
+    R['util.descriptor_utils.append_descriptor'] = lambda w: (
+        None, [dict(w.rdms().rdm_descriptors), w.rdms(n_rdm=w.size((1, 2, 3))).rdm_descriptors], {})
+    R['util.descriptor_utils.dict_to_list'] = lambda w: (
+        None, [{'cond': np.array(w.conds()), 'cat': {'0': 1, '1': 0, '2': 1}, 'wts': w._vals(3)}], {})
+
+    @reg('util.file_io.remove_file')
+    def _(w):
+        import io
+        f = tmpfile('tmp')
+        open(f, 'w').write('x')
+        return None, [w.pick([f, io.BytesIO(b'abc'), tmpfile('missing')])], {}
+
     return R
 
 
 RECIPES = _recipes()
 
-NO_FACTORY = {
-    'rsatoolbox.util.vis_utils.smacof': 'MDS solver of the visualisation layer (out of scope: rsatoolbox.vis support code)',
-    'rsatoolbox.util.vis_utils.Weighted_MDS': 'scikit-learn estimator of the visualisation layer (out of scope)',
-    'rsatoolbox.util.matrix.run': 'not an rsatoolbox callable (scipy.sparse re-export picked up by module scan)',
-}
+NO_FACTORY = {}
 
 
 def build_call(qualname, seed):
